@@ -112,7 +112,14 @@ def run : Runner
       | "maxvalueage" => some (maxValueAge mi mc tg coins)
       | "minpriority" => some (minPriority (coins.length + 2) mi mc ma tg coins)
       | _ => none
-    let model := match r with | none => "none" | some cs => "ok:" ++ idsTok cs.coins
+    let model := match r with
+      | none => "none"
+      | some cs =>
+        -- "?": the selector returned another implementation of the Coins interface; only the ids are observable
+        if impl.endsWith " ?" then s!"ok:{idsTok cs.coins} ?"
+        else s!"ok:{idsTok cs.coins} {cs.coins.length}/{cs.totalValue}/{cs.totalValueAge}"
+    -- the predicates below look at the id list (first token); the totals token is compared with the model's
+    let impl := (impl.splitOn " ").headD impl
     -- C19 on the implementation's selection
     let prop := if impl == "none" then
         -- the three prefix selectors must fail only when no qualifying prefix exists
